@@ -91,7 +91,7 @@ class Report:
         c = self.counts()
         viols = [o for o in self.obs if o['status'] == VIOLATION]
         knowns = [o for o in self.obs if o['status'] == KNOWN]
-        evdir = os.path.join(VERIF, 'evidence')
+        evdir = os.environ.get('VERIF_EVIDENCE_DIR') or os.path.join(VERIF, 'evidence')
         os.makedirs(evdir, exist_ok=True)
         vdir = os.path.join(evdir, 'violations')
         replay = []
